@@ -834,6 +834,15 @@ fn short(s: String) -> String {
     }
 }
 
+/// No map with more than one member anywhere in the value: its rendering as a string is unique.
+fn order_free(a: &Any) -> bool {
+    match a {
+        Any::Map(m) => m.len() <= 1 && m.values().all(order_free),
+        Any::Array(items) => items.iter().all(order_free),
+        _ => true,
+    }
+}
+
 fn path_key_ok(k: &str) -> bool {
     let mut cs = k.chars();
     matches!(cs.next(), Some(c) if c.is_ascii_alphabetic()) && cs.all(|c| c.is_ascii_alphanumeric())
@@ -995,20 +1004,33 @@ fn check_map<T: ReadTxn>(map: &MapRef, txn: &T, what: &str, path: Option<&str>, 
         ($ty:ty, $name:expr) => {{
             let api = concat!("Map::get_as::<", $name, ">");
             at(api);
-            let base = format!("{:?}", map.get_as::<T, $ty>(txn, NEVER));
+            let base = map.get_as::<T, $ty>(txn, NEVER);
             for (k, got) in gets.iter() {
-                let actual = format!("{:?}", map.get_as::<T, $ty>(txn, k));
+                let actual = map.get_as::<T, $ty>(txn, k);
                 let (expected, from) = match got {
                     Some(out) => (
-                        format!("{:?}", from_any::<$ty>(&out.to_json(txn))),
+                        from_any::<$ty>(&out.to_json(txn)),
                         format!("Map::get({:?}) deserialized (from_any::<{}>)", k, $name),
                     ),
-                    None => (base.clone(), format!("{}({:?}) of a key never written (Map::get({:?}) is None)", api, NEVER, k)),
+                    None => (
+                        map.get_as::<T, $ty>(txn, NEVER),
+                        format!("{}({:?}) of a key never written (Map::get({:?}) is None)", api, NEVER, k),
+                    ),
                 };
-                if actual != expected {
-                    return Err(bad((&from, J::str(&short(expected))), (&format!("{}({:?})", api, k), J::str(&short(actual)))));
+                // values are compared as values (an `Any::Map` prints in hash order), errors by their text
+                let same = match (&actual, &expected) {
+                    (Ok(a), Ok(e)) => a == e,
+                    (Err(a), Err(e)) => format!("{:?}", a) == format!("{:?}", e),
+                    _ => false,
+                };
+                if !same {
+                    return Err(bad(
+                        (&from, J::str(&short(format!("{:?}", expected)))),
+                        (&format!("{}({:?})", api, k), J::str(&short(format!("{:?}", actual)))),
+                    ));
                 }
             }
+            let _ = base;
         }};
     }
     check_get_as!(Any, "Any");
@@ -1181,6 +1203,12 @@ fn check_attrs<X: Xml, T: ReadTxn>(
             ));
         }
         for (k, v) in attrs.iter() {
+            // the string form of a map with several members comes out in the hash order of a map
+            // built for the occasion: two renderings of one value may differ, nothing to compare
+            at("Out::to_json");
+            if !order_free(&v.to_json(txn)) {
+                continue;
+            }
             at("Out::to_string");
             let want = v.clone().to_string(txn);
             if prelim.attributes.get(k.as_str()) != Some(&want) {
@@ -1617,4 +1645,617 @@ fn check_host<T: ReadTxn>(case: &MCase, rep: &Rep, txn: &T, ctx: &Ctx) -> Result
         HostRef::Elem(e) => check_attrs(e, Some(e), txn, what, ctx),
         HostRef::Text(t) => check_attrs(t, None, txn, what, ctx),
     }
+}
+
+// ---------------------------------------------------------------------------
+// execution
+// ---------------------------------------------------------------------------
+
+/// What a passing run tells about the final state (needed to extend the history).
+#[derive(Clone, Debug, Default)]
+pub struct MInfo {
+    /// Bit k of entry r: on replica r key name k (its first concrete key) is present.
+    live: [u8; 2],
+    /// Likewise: the value is a nested Map.
+    maps: [u8; 2],
+    can_undo: bool,
+    can_redo: bool,
+    /// The last operation / delivery / undo changed nothing: the history is a duplicate of a shorter one.
+    noop: bool,
+    stats: Stats,
+}
+
+fn encoded<T: ReadTxn>(txn: &T) -> Vec<u8> {
+    at("ReadTxn::encode_state_as_update_v1");
+    txn.encode_state_as_update_v1(&StateVector::default())
+}
+
+/// The keys probed through the point reads: every concrete key of the first three key names and of
+/// the names the case uses, the keys of the nested maps, the key of the set-up.
+fn alphabet_of(case: &MCase) -> Vec<String> {
+    let mut names: BTreeSet<u8> = [0u8, 1, 2].into_iter().collect();
+    for s in case.steps.iter() {
+        if let MStep::Txn { ops, .. } = s {
+            names.extend(ops.iter().filter_map(|o| o.key()));
+        }
+    }
+    let mut out: Vec<String> = names.into_iter().flat_map(|k| case.concrete(k)).collect();
+    out.extend(INNER_KEYS.iter().map(|k| k.to_string()));
+    out.push(NESTED_KEY.to_string());
+    out
+}
+
+/// Runs the steps. `check_all`: read after every operation and every step (replay); otherwise
+/// only after the last operation (inside its transaction) and after the last step, the earlier
+/// moments having been checked when the prefixes ran. On a disagreement returns the steps cut
+/// after the failing operation.
+fn execute(case: &MCase, check_all: bool) -> Result<MInfo, (Vec<MStep>, Failure)> {
+    let mut done: Vec<MStep> = Vec::new();
+    let alphabet = alphabet_of(case);
+    let r = guarded(|| {
+        let mut reps = setup(case)?;
+        let mut n = 0i64;
+        let mut stats = Stats::default();
+        let mut noop = false;
+        let (_, relay_ok) = json_support();
+        // replicas that hold a ContentJSON entry
+        let mut holds_json = [false; 2];
+        let ctx_at = |step: usize, replica: usize, moment: String| Ctx {
+            step,
+            replica,
+            moment,
+            alphabet: &alphabet,
+        };
+        if check_all || case.steps.is_empty() {
+            for (ri, rep) in reps.iter().enumerate() {
+                let txn = rep.doc.transact();
+                check_host(case, rep, &txn, &ctx_at(0, ri, "before the first step".to_string()))?;
+            }
+        }
+        let count = case.steps.len();
+        for (si, step) in case.steps.iter().enumerate() {
+            let is_last = si + 1 == count;
+            match step {
+                MStep::Txn { replica, ops } => {
+                    let rep = &reps[*replica];
+                    done.push(MStep::Txn {
+                        replica: *replica,
+                        ops: Vec::new(),
+                    });
+                    {
+                        at("Doc::transact_mut");
+                        let mut txn = rep.doc.transact_mut();
+                        for (oi, op) in ops.iter().enumerate() {
+                            let last_op = is_last && oi + 1 == ops.len();
+                            let before = if last_op { Some(encoded(&txn)) } else { None };
+                            if let Some(MStep::Txn { ops: d, .. }) = done.last_mut() {
+                                d.push(op.clone());
+                            }
+                            apply_op(case, rep, &mut txn, op, &mut n, &mut stats)?;
+                            if let MOp::Foreign { content, .. } = op {
+                                holds_json[*replica] |= content.is_json();
+                            }
+                            if let Some(b) = before {
+                                noop = encoded(&txn) == b;
+                            }
+                            if check_all || last_op {
+                                let moment = format!("inside the open transaction, after operation {} of the step", oi + 1);
+                                check_host(case, rep, &txn, &ctx_at(si, *replica, moment))?;
+                            }
+                        }
+                        at("TransactionMut::commit");
+                        drop(txn);
+                    }
+                    if check_all || is_last {
+                        at("Doc::transact");
+                        let txn = rep.doc.transact();
+                        check_host(case, rep, &txn, &ctx_at(si, *replica, "after the commit".to_string()))?;
+                    }
+                }
+                MStep::Deliver { to, from } => {
+                    done.push(step.clone());
+                    if holds_json[*from] && !relay_ok {
+                        return Err(invalid(
+                            "delivery from a replica that holds a ContentJSON entry: on this tree the sender's own encoding of \
+                             ContentJSON does not decode (a codec matter, not a read-path matter)"
+                                .to_string(),
+                        ));
+                    }
+                    holds_json[*to] |= holds_json[*from];
+                    let before = if is_last { Some(encoded(&reps[*to].doc.transact())) } else { None };
+                    transfer(&reps[*from].doc, &reps[*to].doc)?;
+                    let rep = &reps[*to];
+                    let txn = rep.doc.transact();
+                    if let Some(b) = before {
+                        noop = encoded(&txn) == b;
+                    }
+                    if check_all || is_last {
+                        check_host(case, rep, &txn, &ctx_at(si, *to, "after the delivery".to_string()))?;
+                    }
+                }
+                MStep::Undo | MStep::Redo => {
+                    done.push(step.clone());
+                    let undo = matches!(step, MStep::Undo);
+                    let before = if is_last { Some(encoded(&reps[0].doc.transact())) } else { None };
+                    {
+                        let mgr = reps[0]
+                            .undo
+                            .as_mut()
+                            .ok_or_else(|| invalid("undo / redo without an undo manager".to_string()))?;
+                        if undo {
+                            at("UndoManager::undo_blocking");
+                            let _ = mgr.undo_blocking();
+                        } else {
+                            at("UndoManager::redo_blocking");
+                            let _ = mgr.redo_blocking();
+                        }
+                    }
+                    let rep = &reps[0];
+                    let txn = rep.doc.transact();
+                    if let Some(b) = before {
+                        noop = encoded(&txn) == b;
+                    }
+                    if check_all || is_last {
+                        let moment = if undo { "after undo" } else { "after redo" };
+                        check_host(case, rep, &txn, &ctx_at(si, 0, moment.to_string()))?;
+                    }
+                }
+            }
+        }
+        let mut info = MInfo {
+            noop,
+            stats,
+            ..MInfo::default()
+        };
+        for (ri, rep) in reps.iter().enumerate() {
+            let txn = rep.doc.transact();
+            for k in 0..KEY_NAMES.len() {
+                at("Map::get");
+                match host_get(&rep.host, &txn, KEY_NAMES[k]) {
+                    Some(Out::YMap(_)) => {
+                        info.live[ri] |= 1 << k;
+                        info.maps[ri] |= 1 << k;
+                    }
+                    Some(_) => info.live[ri] |= 1 << k,
+                    None => {}
+                }
+            }
+        }
+        if let Some(mgr) = reps[0].undo.as_ref() {
+            info.can_undo = mgr.can_undo();
+            info.can_redo = mgr.can_redo();
+        }
+        Ok(info)
+    });
+    r.map_err(|f| (done, f))
+}
+
+// ---------------------------------------------------------------------------
+// enumeration
+// ---------------------------------------------------------------------------
+
+/// How many operations / deliveries a history may have, by what it contains: only core
+/// operations (insert of a number, remove, clear, on keys a and b; deliveries, undo, redo); also
+/// medium ones (key c, a nested MapPrelim, try_update, get_or_init::<MapRef>); exactly one wide
+/// operation (any other value kind, foreign content, nested_set, get_or_init of another type)
+/// next to core ones; anything else.
+#[derive(Clone, Copy, Debug)]
+struct Limits {
+    core: usize,
+    medium: usize,
+    wide1: usize,
+    wide2: usize,
+}
+
+impl Limits {
+    fn allowed(&self, atoms: usize, medium: usize, wide: usize) -> bool {
+        let limit = if wide == 0 && medium == 0 {
+            self.core
+        } else if wide == 0 {
+            self.medium
+        } else if wide == 1 && medium == 0 {
+            self.wide1
+        } else {
+            self.wide2
+        };
+        atoms <= limit
+    }
+    fn deepest(&self) -> usize {
+        self.core.max(self.medium).max(self.wide1).max(self.wide2)
+    }
+}
+
+struct Stage {
+    name: &'static str,
+    host: HostKind,
+    replicas: usize,
+    gc: bool,
+    undo: bool,
+    fan: usize,
+    limits: Limits,
+    max_keys: u8,
+    per_txn: usize,
+}
+
+/// (operations + deliveries, medium operations, wide operations)
+fn weights(steps: &[MStep]) -> (usize, usize, usize) {
+    let (mut a, mut m, mut w) = (0, 0, 0);
+    for s in steps {
+        a += s.atoms();
+        if let MStep::Txn { ops, .. } = s {
+            for op in ops {
+                match op.class() {
+                    1 => m += 1,
+                    2 => w += 1,
+                    _ => {}
+                }
+            }
+        }
+    }
+    (a, m, w)
+}
+
+/// Key names are introduced in order: this many have been written so far.
+fn keys_used(steps: &[MStep]) -> u8 {
+    let mut used = 0u8;
+    for s in steps {
+        if let MStep::Txn { ops, .. } = s {
+            for op in ops {
+                if let Some(k) = op.key() {
+                    if !matches!(op, MOp::Remove { .. } | MOp::NestedSet { .. }) {
+                        used = used.max(k + 1);
+                    }
+                }
+            }
+        }
+    }
+    used
+}
+
+/// news[r]: replica r has committed something the other one has not received;
+/// json[r]: replica r holds a ContentJSON entry.
+fn news(steps: &[MStep]) -> ([bool; 2], [bool; 2]) {
+    let mut n = [false; 2];
+    let mut json = [false; 2];
+    for s in steps {
+        match s {
+            MStep::Txn { replica, ops } => {
+                n[*replica] = true;
+                json[*replica] |= ops.iter().any(|o| matches!(o, MOp::Foreign { content, .. } if content.is_json()));
+            }
+            MStep::Deliver { from, to } => {
+                n[*from] = false;
+                json[*to] |= json[*from];
+            }
+            MStep::Undo | MStep::Redo => n[0] = true,
+        }
+    }
+    (n, json)
+}
+
+impl Stage {
+    fn case(&self, target: &str, steps: Vec<MStep>) -> MCase {
+        MCase {
+            target: target.to_string(),
+            variant: self.name.to_string(),
+            host: self.host,
+            replicas: self.replicas,
+            gc: self.gc,
+            undo: self.undo,
+            fan: self.fan,
+            steps,
+        }
+    }
+
+    /// The operations replica `r` can make in the state `info` describes.
+    fn ops(&self, info: &MInfo, r: usize, used: u8) -> Vec<MOp> {
+        let map_host = !self.host.is_xml();
+        let (json_form, _) = json_support();
+        let mut out = Vec::new();
+        for key in 0..self.max_keys.min(used + 1) {
+            for value in ALL_VALS {
+                out.push(MOp::Insert { key, value });
+            }
+            if map_host {
+                out.push(MOp::TryUpdate { key });
+                for kind in [Init::Map, Init::Array, Init::Text] {
+                    out.push(MOp::GetOrInit { key, kind });
+                }
+            }
+            for content in FOREIGN_ENUM {
+                if content.is_json() && json_form.is_none() {
+                    continue;
+                }
+                out.push(MOp::Foreign { key, content, wins: true });
+                if info.live[r] & (1 << key) != 0 {
+                    out.push(MOp::Foreign { key, content, wins: false });
+                }
+            }
+        }
+        for key in 0..used.min(self.max_keys) {
+            out.push(MOp::Remove { key });
+            if info.maps[r] & (1 << key) != 0 {
+                out.push(MOp::NestedSet { key });
+            }
+        }
+        if map_host && used > 0 {
+            out.push(MOp::Clear);
+        }
+        out
+    }
+
+    /// The one-step extensions of a passing history.
+    fn children(&self, steps: &[MStep], info: &MInfo) -> Vec<Vec<MStep>> {
+        let (atoms, medium, wide) = weights(steps);
+        let used = keys_used(steps);
+        let mut out: Vec<Vec<MStep>> = Vec::new();
+        // steps of different replicas commute as long as nothing is delivered in between: only
+        // the order "replica 1 first" is enumerated
+        let after_second = matches!(steps.last(), Some(MStep::Txn { replica: 1, .. }));
+        for r in 0..self.replicas {
+            for op in self.ops(info, r, used) {
+                let c = op.class();
+                if !self.limits.allowed(atoms + 1, medium + (c == 1) as usize, wide + (c == 2) as usize) {
+                    continue;
+                }
+                // one more operation in the open transaction ..
+                if let Some(MStep::Txn { replica, ops }) = steps.last() {
+                    if *replica == r && ops.len() < self.per_txn {
+                        let mut s = steps.to_vec();
+                        if let Some(MStep::Txn { ops, .. }) = s.last_mut() {
+                            ops.push(op.clone());
+                        }
+                        out.push(s);
+                    }
+                }
+                // .. or a transaction of its own
+                if !(r == 0 && after_second) {
+                    let mut s = steps.to_vec();
+                    s.push(MStep::Txn {
+                        replica: r,
+                        ops: vec![op],
+                    });
+                    out.push(s);
+                }
+            }
+        }
+        if self.limits.allowed(atoms + 1, medium, wide) {
+            let extend = |step: MStep| -> Vec<MStep> {
+                let mut s = steps.to_vec();
+                s.push(step);
+                s
+            };
+            if self.replicas == 2 {
+                let (n, json) = news(steps);
+                let (_, relay_ok) = json_support();
+                for (to, from) in [(0usize, 1usize), (1, 0)] {
+                    if n[from] && (relay_ok || !json[from]) {
+                        out.push(extend(MStep::Deliver { to, from }));
+                    }
+                }
+            }
+            if self.undo && !after_second {
+                if info.can_undo {
+                    out.push(extend(MStep::Undo));
+                }
+                if info.can_redo {
+                    out.push(extend(MStep::Redo));
+                }
+            }
+        }
+        out
+    }
+}
+
+// ---------------------------------------------------------------------------
+// search / replay
+// ---------------------------------------------------------------------------
+
+fn stages(target: &str, universe: u32) -> Vec<Stage> {
+    let u = universe.clamp(2, 8) as usize;
+    let d = |k: usize| u.saturating_sub(k).max(1);
+    let lim = |core: usize, medium: usize, wide1: usize, wide2: usize| Limits {
+        core,
+        medium: medium.min(core),
+        wide1: wide1.min(medium).min(core),
+        wide2: wide2.min(wide1).min(medium).min(core),
+    };
+    let core_only = |core: usize| Limits {
+        core,
+        medium: 0,
+        wide1: 0,
+        wide2: 0,
+    };
+    let st = |name: &'static str, host: HostKind, replicas: usize, gc: bool, undo: bool, fan: usize, limits: Limits| Stage {
+        name,
+        host,
+        replicas,
+        gc,
+        undo,
+        fan,
+        limits,
+        max_keys: if fan > 1 { 2 } else { 3 },
+        per_txn: 3,
+    };
+    let mut out = Vec::new();
+    if target != "xml_attrs" {
+        use HostKind::*;
+        out.push(st("root_1_replica_gc", Root, 1, true, false, 1, lim(d(1), d(3), d(3), d(4))));
+        out.push(st("root_1_replica_keys_x8_gc", Root, 1, true, false, 8, core_only(d(3))));
+        out.push(st("root_1_replica_nogc", Root, 1, false, false, 1, lim(d(2), d(3), d(3), d(4))));
+        out.push(st("root_1_replica_undo", Root, 1, true, true, 1, lim(d(2), d(3), d(4), d(4))));
+        out.push(st("root_2_replicas_gc", Root, 2, true, false, 1, lim(d(2), d(4), d(4), d(4))));
+        out.push(st("root_2_replicas_nogc", Root, 2, false, false, 1, lim(d(3), d(4), d(4), d(5))));
+        out.push(st("root_1_replica_keys_x8_nogc", Root, 1, false, false, 8, core_only(d(3))));
+        out.push(st("root_1_replica_keys_x8_undo", Root, 1, true, true, 8, core_only(d(3))));
+        out.push(st("map_in_map_1_replica_gc", InMap, 1, true, false, 1, lim(d(2), d(3), d(3), d(4))));
+        out.push(st("map_in_map_2_replicas_gc", InMap, 2, true, false, 1, lim(d(3), d(4), d(4), d(4))));
+        out.push(st("map_in_array_1_replica_gc", InArray, 1, true, false, 1, lim(d(2), d(3), d(3), d(4))));
+        out.push(st("map_in_array_2_replicas_nogc", InArray, 2, false, false, 1, lim(d(3), d(4), d(4), d(4))));
+        out.push(st("map_in_map_1_replica_keys_x8_gc", InMap, 1, true, false, 8, core_only(d(3))));
+    }
+    if target != "map_paths" {
+        use HostKind::*;
+        out.push(st("xml_element_1_replica_gc", XmlElem, 1, true, false, 1, lim(d(2), d(3), d(3), d(4))));
+        out.push(st("xml_element_1_replica_keys_x8_gc", XmlElem, 1, true, false, 8, core_only(d(3))));
+        out.push(st("xml_element_1_replica_nogc", XmlElem, 1, false, false, 1, lim(d(3), d(3), d(4), d(4))));
+        out.push(st("xml_element_1_replica_undo", XmlElem, 1, true, true, 1, lim(d(3), d(3), d(4), d(4))));
+        out.push(st("xml_element_2_replicas_gc", XmlElem, 2, true, false, 1, lim(d(3), d(4), d(4), d(4))));
+        out.push(st("xml_text_1_replica_gc", XmlText, 1, true, false, 1, lim(d(3), d(4), d(4), d(4))));
+    }
+    out
+}
+
+pub fn cmd_search(target: &str, universe: u32, jobs: usize, deadline: Option<Instant>) -> i32 {
+    use std::sync::atomic::{AtomicU64, Ordering};
+    let mut h = Hunt {
+        jobs: jobs.max(1),
+        deadline,
+        cases: 0,
+    };
+    let mut stages = stages(target, universe);
+    // debugging aids: VX_MAP_ONLY=<stage name> runs one configuration, VX_MAP_LIMITS=core,medium,wide1,wide2
+    // overrides the depths, VX_MAP_TIMES=1 prints cases and milliseconds per configuration on stderr
+    if let Ok(only) = std::env::var("VX_MAP_ONLY") {
+        stages.retain(|s| s.name == only);
+    }
+    if let Ok(text) = std::env::var("VX_MAP_LIMITS") {
+        let v: Vec<usize> = text.split(',').filter_map(|x| x.trim().parse().ok()).collect();
+        if v.len() == 4 {
+            for s in stages.iter_mut() {
+                s.limits = Limits {
+                    core: v[0],
+                    medium: v[1],
+                    wide1: v[2],
+                    wide2: v[3],
+                };
+            }
+        }
+    }
+    let times = std::env::var_os("VX_MAP_TIMES").is_some();
+    let deepest = stages.iter().map(|s| s.limits.deepest()).max().unwrap_or(0);
+    let mut frontiers: Vec<Vec<(Vec<MStep>, MInfo)>> = stages.iter().map(|_| Vec::new()).collect();
+    let mut counts = vec![0u64; stages.len()];
+    let mut millis = vec![0u128; stages.len()];
+    let foreign = AtomicU64::new(0);
+    let foreign_pending = AtomicU64::new(0);
+    let dropped = AtomicU64::new(0);
+    let noops = AtomicU64::new(0);
+    let mut res: Result<(), Stop> = Ok(());
+    // iterative deepening on the number of operations, all configurations in turn: a witness is as short as possible
+    'deepening: for d in 0..=deepest {
+        for (si, st) in stages.iter().enumerate() {
+            if d > st.limits.deepest() {
+                continue;
+            }
+            let started = Instant::now();
+            let before = h.cases;
+            let run_one = |tally: &mut Tally, steps: Vec<MStep>| -> Result<Option<(Vec<MStep>, MInfo)>, Stop> {
+                if tally.expired() {
+                    return Err(Stop::Timeout);
+                }
+                let case = st.case(target, steps);
+                match execute(&case, false) {
+                    Ok(info) => {
+                        tally.cases += 1;
+                        foreign.fetch_add(info.stats.foreign as u64, Ordering::Relaxed);
+                        foreign_pending.fetch_add(info.stats.foreign_pending as u64, Ordering::Relaxed);
+                        if info.noop {
+                            // a duplicate of a shorter history: checked, not extended
+                            noops.fetch_add(1, Ordering::Relaxed);
+                            return Ok(None);
+                        }
+                        Ok(Some((case.steps, info)))
+                    }
+                    Err((_, f)) if is_invalid(&f) => {
+                        dropped.fetch_add(1, Ordering::Relaxed);
+                        Ok(None)
+                    }
+                    Err((done, failure)) => Err(Stop::Found(Box::new(Found {
+                        fields: case.fields(&done),
+                        failure,
+                    }))),
+                }
+            };
+            let produced: Result<Vec<Vec<(Vec<MStep>, MInfo)>>, Stop> = if d == 0 {
+                h.par(1, &|tally: &mut Tally, _| Ok(run_one(tally, Vec::new())?.into_iter().collect()))
+            } else {
+                let fr = &frontiers[si];
+                h.par(fr.len(), &|tally: &mut Tally, i: usize| {
+                    let (steps, info) = &fr[i];
+                    let mut kept = Vec::new();
+                    for child in st.children(steps, info) {
+                        if let Some(k) = run_one(tally, child)? {
+                            kept.push(k);
+                        }
+                    }
+                    Ok(kept)
+                })
+            };
+            counts[si] += h.cases - before;
+            millis[si] += started.elapsed().as_millis();
+            match produced {
+                Ok(lists) => frontiers[si] = lists.into_iter().flatten().collect(),
+                Err(stop) => {
+                    res = Err(stop);
+                    break 'deepening;
+                }
+            }
+        }
+    }
+    if times {
+        for (si, st) in stages.iter().enumerate() {
+            eprintln!("{:40} {:>9} cases {:>8} ms", st.name, counts[si], millis[si]);
+        }
+    }
+    let per_stage: Vec<(&str, J)> = stages.iter().enumerate().map(|(si, st)| (st.name, J::Num(counts[si] as i64))).collect();
+    let (json_form, relay_ok) = json_support();
+    let extra = vec![
+        ("cases_per_stage", J::obj(per_stage)),
+        ("histories_without_effect_not_extended", J::Num(noops.load(Ordering::Relaxed) as i64)),
+        ("foreign_entries_applied", J::Num(foreign.load(Ordering::Relaxed) as i64)),
+        ("foreign_entries_left_pending", J::Num(foreign_pending.load(Ordering::Relaxed) as i64)),
+        ("cases_dropped_as_not_executable", J::Num(dropped.load(Ordering::Relaxed) as i64)),
+        (
+            "content_json",
+            J::str(match (json_form, relay_ok) {
+                (None, _) => "not injected: this tree decodes neither count form",
+                (Some(JsonForm::Yjs), true) => "count written as Yjs writes it; relayed between replicas",
+                (Some(JsonForm::Yjs), false) => "count written as Yjs writes it; never relayed (the tree's own encoding of it does not decode)",
+                (Some(JsonForm::OneLess), true) => "count written one lower (this tree reads one string more than announced); relayed between replicas",
+                (Some(JsonForm::OneLess), false) => {
+                    "count written one lower (this tree reads one string more than announced); never relayed (the tree's own encoding of it does not decode)"
+                }
+            }),
+        ),
+    ];
+    finish(target, universe, res, &h, extra)
+}
+
+/// `replay` of a witness of this module; `Err`: usage error (exit 2). The case is executed
+/// `REPLAY_RUNS` times on fresh documents (the hash order of a map differs from one execution to
+/// the next), reading after every operation and every step; any failing execution is reported.
+pub fn cmd_replay(j: &J) -> Result<i32, String> {
+    let case = MCase::from_json(j)?;
+    let mut last = MInfo::default();
+    for run in 0..REPLAY_RUNS {
+        match execute(&case, true) {
+            Ok(info) => last = info,
+            Err((_, f)) if is_invalid(&f) => return Err(f.why),
+            Err((done, mut f)) => {
+                if let J::Obj(_) = f.actual {
+                    f.actual.push_field("failed_in_execution", J::Num(run as i64 + 1));
+                    f.actual.push_field("failed_after_steps", J::Arr(done.iter().map(|s| s.json()).collect()));
+                }
+                return Ok(finish_replay(Err(f)));
+            }
+        }
+    }
+    Ok(finish_replay(Ok(J::obj(vec![
+        ("all_read_paths_agree", J::Bool(true)),
+        ("executions", J::Num(REPLAY_RUNS as i64)),
+        ("steps", J::Num(case.steps.len() as i64)),
+        ("foreign_entries_applied", J::num(last.stats.foreign)),
+        ("foreign_entries_left_pending", J::num(last.stats.foreign_pending)),
+    ]))))
 }
